@@ -1386,6 +1386,20 @@ def _angle_depth(text):
     return m
 
 
+def _nesting(text):
+    """deepest bracket nesting, and the longest run of prefix operators (a chain of unary operators nests as deeply)"""
+    d = m = 0
+    for c in text:
+        if c in "([{":
+            d += 1
+            m = max(m, d)
+        elif c in ")]}":
+            d = max(0, d - 1)
+    run = max((len(x) for x in re.findall(r"(?:[-!~+]\s*){2,}", text)), default=0)
+    ifs = len(re.findall(r"\bif\b|\?", text))
+    return max(m, run // 2, ifs)
+
+
 class C08(Prop):
     id = "C08"
     gens = ["GenPanicSites", "GenLexer", "GenEvaluator", "GenNames", "GenBindings"]
@@ -1444,6 +1458,8 @@ class C08(Prop):
             nums = [int(x) for x in re.findall(r"(?:bind_group\(|space|DefaultBindGroup\s*=\s*)(\d+)", text)]
             if any(n >= (1 << 20) for n in nums) and not case.startswith("Msl") and not case.startswith("Metal"):
                 return "huge-bind-group-index"
+            if _nesting(text) >= 400:
+                return "deep-nesting-stack-overflow"
             return None
         return None
 
